@@ -37,15 +37,22 @@ mod verif_kani {
     /// symbolic bound values, one harness per pair of bound kinds (Included / Excluded / Unbounded); the iterator
     /// yields exactly the retained records inside the range, in order.
     fn range_case(lb: Bound<u64>, hb: Bound<u64>) {
-        let f = crate::rolling::FileNumber::default();
         let p0: u64 = kani::any();
         let p1: u64 = kani::any();
         kani::assume(p0 < p1 && p1 < u64::MAX);
         let b0: u8 = kani::any();
         let b1: u8 = kani::any();
-        let mut q = MemQueue::with_next_position(p0);
-        q.append_record(&f, p0, &[b0]).unwrap();
-        q.append_record(&f, p1, &[b1]).unwrap();
+        // the queue after `append(p0,[b0]); append(p1,[b1])`, built directly (the append path is verified by Verus)
+        let mut concatenated_records = RollingBuffer::new();
+        concatenated_records.extend(&[b0, b1]);
+        let q = MemQueue {
+            concatenated_records,
+            start_position: p0,
+            record_metas: vec![
+                RecordMeta { start_offset: 0, file_number: None, position: p0 },
+                RecordMeta { start_offset: 1, file_number: None, position: p1 },
+            ],
+        };
         let inside = |p: u64| -> bool {
             (match lb { Bound::Included(l) => p >= l, Bound::Excluded(l) => p > l, Bound::Unbounded => true })
                 && (match hb { Bound::Included(h) => p <= h, Bound::Excluded(h) => p < h, Bound::Unbounded => true })
